@@ -58,6 +58,8 @@ var (
 	envPaths  = []string{"/$DC/x", "/a/${DC}", "/x$", "/${DC}${DC}", "/$DC_x", "/${ }", "/$-a", "/a${}b", "/${DC", "/$", "/x$/y"}
 	badPaths  = []string{"/[", "/{a", "/[a-", "/a\tb", "/\\"}
 	tcpPorts  = []string{":8080", ":1234", ":443"}
+	badHosts  = []string{"[x.com", "{a.com", "Foo[.com", "x.[a-.org", "[", "a{b,c.com:80", "*.{x.com"}
+	okGlobHosts = []string{"*.foo.com", "{a,b}.x.org", "[ab].x.org", "*"}
 
 	plainOpts = []string{"strip=/foo", "host=dst", "host=Foo.com", "tlsskipverify=true", "register=name", "prepend=/p", "k", "a=b=c",
 		"proto=http", "pxyproto=true", "auth=basic", "strip=/foo", "allow=ip:10.0.0.0/8",
@@ -94,13 +96,21 @@ func (g *gen) chance(pct int) bool   { return g.r.Intn(100) < pct }
 
 // routePart: feature flags select the pools
 type feat struct {
-	upper, env, badPath, hostOnly, tcp bool
+	upper, env, badPath, hostOnly, tcp, badHost, globHost bool
 }
 
 func (g *gen) routePart(f feat) string {
 	switch {
 	case f.tcp:
 		return g.pick(tcpPorts)
+	case f.badHost:
+		h := g.pick(badHosts)
+		if g.chance(40) {
+			return h // host-only
+		}
+		return h + g.pick([]string{"/", "/foo", "/x/y"})
+	case f.globHost:
+		return g.pick(okGlobHosts) + g.pick([]string{"/", "/foo", ""})
 	case f.hostOnly:
 		if g.chance(50) {
 			if f.upper {
@@ -192,7 +202,7 @@ func (g *gen) goodEntry(i int) entry {
 	}
 	n := 1 + g.r.Intn(2)
 	for k := 0; k < n; k++ {
-		f := feat{tcp: g.chance(8), hostOnly: g.chance(10)}
+		f := feat{tcp: g.chance(8), hostOnly: g.chance(10), globHost: g.chance(6)}
 		opts := g.someOpts(2, plainOpts, plainOpts, weightOpts, protoOpts)
 		if f.tcp {
 			opts = append([]string{"proto=tcp"}, opts...)
@@ -255,6 +265,11 @@ func (g *gen) badEntry(i int, kind string) entry {
 		e.Tags = append(e.Tags, g.routeTag(feat{}, append(g.someOpts(1, plainOpts), g.pick(oddRedir))))
 	case "bad-path":
 		e.Tags = append(e.Tags, g.routeTag(feat{badPath: true}, g.someOpts(1, plainOpts)))
+	case "bad-host":
+		e.Tags = append(e.Tags, g.routeTag(feat{badHost: true}, g.someOpts(1, plainOpts)))
+		if g.chance(30) { // the same bad host twice / beside a compiling glob host
+			e.Tags = append(e.Tags, g.routeTag(feat{badHost: true}, nil), g.routeTag(feat{globHost: true}, nil))
+		}
 	case "empty-route":
 		e.Tags = append(e.Tags, g.pick([]string{g.prefix, g.prefix + " ", g.prefix + " proto=tcp", g.prefix + "/x\tproto=tcp", g.prefix + "\t/x"}))
 	}
@@ -262,7 +277,7 @@ func (g *gen) badEntry(i int, kind string) entry {
 }
 
 var badKinds = []string{"quote-tag", "alter-tag", "utf8-tag", "bad-utf8-tag", "empty-tag", "bad-name", "odd-name", "bad-addr", "no-addr", "neg-port",
-	"odd-weight", "crash-weight", "other-weight", "odd-opt", "odd-redirect", "bad-path", "empty-route"}
+	"odd-weight", "crash-weight", "other-weight", "odd-opt", "odd-redirect", "bad-path", "empty-route", "bad-host"}
 
 // multiTag: >= 2 routing tags where earlier ones set the destination (proto= / redirect=) and later ones do not
 func (g *gen) multiTag(i int) entry {
@@ -428,6 +443,8 @@ func errKind(err error) int {
 		return 8
 	case s == "route: no target match":
 		return 9
+	case strings.HasPrefix(s, "route: invalid host."):
+		return 11
 	}
 	return 10
 }
@@ -505,8 +522,9 @@ func (f *facts) scanLine(line string) {
 		f.url(fs[4])
 	}
 	if len(fs) >= 4 && fs[0] == "route" && fs[1] == "add" {
-		_, p := hostpath(fs[3])
+		h, p := hostpath(fs[3])
 		f.glob(p)
+		f.glob(strings.ToLower(h))
 	}
 	for i := 2; i+1 < len(fs); i++ {
 		if fs[i] == "weight" {
@@ -611,6 +629,11 @@ func doRegs(run *vh.Run, class string, prefix string, env map[string]string, es 
 					run.Exclude("non-ASCII host part in a routing tag (strings.ToLower is modelled on ASCII)")
 					return
 				}
+				if rt, _, ok := consul.VerifC14ParseURLPrefixTag(tt, prefix, env); ok {
+					hh, pp := hostpath(rt)
+					f.glob(strings.ToLower(hh))
+					f.glob(pp)
+				}
 			}
 		}
 	}
@@ -653,6 +676,7 @@ func doRegs(run *vh.Run, class string, prefix string, env map[string]string, es 
 					}
 					f.url(d.Dst)
 					f.glob(p)
+					f.glob(strings.ToLower(h))
 					t, ok := defTerm(d)
 					if !ok {
 						f.ok = false
@@ -785,6 +809,9 @@ func directed() []fixed {
 		with(e1("my svc", "10.0.0.2", 80, "urlprefix-/bad")), alone(e1("my svc", "10.0.0.2", 80, "urlprefix-/bad")),
 		with(e1("", "10.0.0.2", 80, "urlprefix-/bad")),
 		with(e1("bad", "10.0.0.2", 80, "urlprefix-/[")),
+		with(e1("bad", "10.0.0.2", 80, "urlprefix-[x.com/")), alone(e1("bad", "10.0.0.2", 80, "urlprefix-[x.com/")),
+		with(e1("bad", "10.0.0.2", 80, "urlprefix-{A.com")),
+		with(e1("ok", "10.0.0.2", 80, "urlprefix-*.Foo.com/", "urlprefix-{a,b}.x.org/y")),
 		with(e1("bad", "10.0.0.2", 80, "urlprefix-")),
 		with(e1("bad", "10.0.0.2", 80, "urlprefix-/x\tproto=tcp")),
 		with(e1("bad", "10.0.0.2", 80, `urlprefix-/bad host="x"`)),
